@@ -1353,6 +1353,9 @@ def _register_pure():
     import base64
     import socket
     import enum
+    import re
+    for f in (re.search, re.match, re.fullmatch, re.findall, re.sub, re.split):      # on concrete arguments only
+        PURE_OK.add(f)
     for f in (os.path.basename, os.path.join, os.path.dirname, os.path.isabs, struct.pack, struct.unpack,
               base64.b16decode, collections.namedtuple, collections.defaultdict, collections.OrderedDict,
               socket.AddressFamily, socket.SocketKind, object):
@@ -1375,6 +1378,8 @@ def call_python(it, f, args, kwargs, node):
             return f(*args)
         except ValueError as e:
             it.raise_(ValueError, str(e))
+    if isinstance(getattr(f, "__self__", None), (re.Match, re.Pattern)) and not has_sym:
+        return f(*args, **kwargs)       # method of a concrete match/pattern object
     if f in PURE_OK or (isinstance(f, type) and f in (object,)):
         if has_sym:
             raise Unsupported(f"library function {getattr(f, '__name__', f)} on symbolic arguments")
